@@ -236,6 +236,7 @@ def undecodable_frame(h1: bytes, h2: bytes, b2: bytes, cut: int, ssel: int) -> b
 
 
 _BACKLOG = [b"", bytes((7 * i) % 251 for i in range(5000))]
+_EXTRA = [bytes((3 * j + k) % 256 for j in range(k)) for k in (0, 1, 2, 3, 4097, 5001)]      # built once, outside the engine
 
 
 def bytequeue_model(tail: bytes, big: int, ops: List[int], ks: List[int]) -> bool:
@@ -270,7 +271,7 @@ def bytequeue_model(tail: bytes, big: int, ops: List[int], ks: List[int]) -> boo
                 return False
             ref = ref[1:]
         elif op == 3:
-            extra = bytes((3 * j + k) % 256 for j in range(k))
+            extra = pick(_EXTRA, ks[i])
             q.append(extra)
             ref = ref + extra
         else:
@@ -326,8 +327,8 @@ OBLIGATIONS.append(
 OBLIGATIONS.append(
     dict(name="bytequeue_model", fn="bytequeue_model", timeout={"quick": 600, "thorough": 1800}, parts={"quick": ["big == %d and len(ops) <= 1" % i for i in range(2)],
                 "thorough": ["big == %d and len(ops) <= 1" % i for i in range(2)]
-                + ["big == %d and len(ops) == 2 and ops[0] == %d" % (i, o) for i in range(2) for o in range(5)]},
+                + ["big == %d and len(ops) == 2 and ops[0] == %d" % (i, o) for i in range(2) for o in (0, 1, 2, 4)]},
          functions=["ByteQueue.append/pop/pop_byte/peek/peek_byte/clear/__len__"],
-         bounds="backlog 0 / 5000 concrete bytes + symbolic tail <= 2, every sequence of <= 1 (thorough 2) operations with sizes 0..3, 4097, "
+         bounds="backlog 0 / 5000 concrete bytes + symbolic tail <= 2, every single operation (thorough: every pair that does not start with an append) with sizes 0..3, 4097, "
                 "5001: results and length equal the byte-string specification after every step",
          outside="longer operation sequences; wait_for (blocking) - exercised by the frame obligations"))
